@@ -135,7 +135,8 @@ func leafKinds(t types.Type) []leafKind {
 	case *types.Slice:
 		out = []leafKind{leafRef, leafOther, leafOther, leafOther}
 	case *types.Interface:
-		out = []leafKind{leafOther, leafRef}
+		// the payload may be a pointer, a boxed value or a constant error identity: no allocation bound
+		out = []leafKind{leafOther, leafOther}
 	case *types.Array:
 		out = []leafKind{leafRef}
 	case *types.Struct:
